@@ -158,8 +158,14 @@ def check_case(case):
     except common.Inconclusive:
         pert = None
     if len(ref["grid"]) != len(B):
-        res.violate("reports", f"{len(ref['grid'])-1} interpolation reports for {len(B)-1} checkpoints")
-        return res
+        # the recorded interpolation calls do not match the requested times one to one: that is an observation about how the loop
+        # calls the solver, not about the values C05 speaks of - rebuild the model from the requested times and the accepted steps
+        res.label("interpolation_calls_differ_from_requests")
+        ref = ssmcase.reference_on_trace(case, evB, smooth=smooth, requested=(B, float(case["eps"])))
+        try:
+            pert = ssmcase.reference_on_trace(case, evB, smooth=smooth, perturb=ssmcase.PERTURB, requested=(B, float(case["eps"])))
+        except common.Inconclusive:
+            pert = None
     nm, _ = ssmcase.compare_marginals(res, "B_vs_model", case, outB["mean"], outB["cov"], ref, pert)
     if nm == 0:
         raise common.Inconclusive("every coefficient block is beyond float64's reach for this case")
